@@ -83,6 +83,14 @@ StructStmts == {
   Stmt(<<M, NP("osub", TRUE), NP("x", FALSE)>>, Int("1")),
   Stmt(<<M>>, Msg(<<MFnc("sub", SubLit("1")), MFnc("rm", SubLit("1")), MFnc("rm", Msg(<<MF("y", Str("c"))>>))>>)),
   Stmt(<<M>>, Msg(<<MF("f_int32", Int("1")), MF("f_int32", Int("2"))>>)),
+  (* Any *)
+  Stmt(PM("any"), Msg(<<MFx("type.googleapis.com/p.Sub", Msg(<<MF("x", Int("1")), MF("y", Str("a"))>>))>>)),
+  Stmt(<<M>>, Msg(<<MFnc("any", Msg(<<MFx("type.googleprod.com/p.Sub", Msg(<<MF("rx", Lst(<<Int("1"), Int("2")>>))>>))>>))>>)),
+  Stmt(PM("any"), Msg(<<MF("type_url", Str("u")), MF("value", Str("v"))>>)),
+  Stmt(PM("any"), Msg(<<MFx("example.com/p.Sub", Msg(<<>>))>>)),
+  Stmt(PM("any"), Msg(<<MFx("type.googleapis.com/p.Nope", Msg(<<>>))>>)),
+  Stmt(PM("any"), Msg(<<MFx("type.googleapis.com/p.Sub", Msg(<<MF("x", Str("bad"))>>))>>)),
+  Stmt(PM("sub"), Msg(<<MFx("type.googleapis.com/p.Sub", Msg(<<>>))>>)),
   (* statements that do not interpret *)
   Stmt(<<M, NP("rm", FALSE), NP("x", FALSE)>>, Int("1")), Stmt(<<M, NP("ri", FALSE), NP("x", FALSE)>>, Int("1")),
   Stmt(<<M, NP("f_int32", FALSE), NP("x", FALSE)>>, Int("1")), Stmt(PM("nope"), Int("1")),
@@ -139,7 +147,6 @@ TKs == IF TKSet = "single" THEN { {t} : t \in TargetNames }
        ELSE { {t} : t \in TargetNames } \cup { {"file", t} : t \in TargetNames \ {"file"} } \cup { {"message", "field"} }
 Schemas ==
   CASE Mode = "target" -> { [NoSch EXCEPT !.tf = f, !.tk = tk] : f \in TgtIds, tk \in TKs }
-    [] Mode = "strip"  -> { [NoSch EXCEPT !.ret = r] : r \in RetAssignments }
     [] OTHER -> {NoSch}
 
 Init == /\ run \in Runs
@@ -147,29 +154,54 @@ Init == /\ run \in Runs
         /\ sch \in Schemas
         /\ part \in Parts
         /\ stmts = <<>> /\ acc = <<>> /\ bad = <<>> /\ uacc = <<>> /\ ubad = <<>>
-        /\ info = [pre |-> FALSE, rules |-> {}, last |-> 0]
+        /\ info = [pre |-> FALSE, rules |-> {}, last |-> 0, dec |-> FALSE]
         /\ sib \in (IF Mode = "strip" /\ kind # "file" THEN {"none", "before", "after"} ELSE {"none"})
 
+RECURSIVE Populated(_, _, _)
+Populated(mt, es, k) ==
+  UNION { LET f == FieldByEntry(mt, k, es[i].n) IN
+          {f.id} \cup (IF f.t \in {"msg", "grp"} /\ f.card = "one" THEN Populated(f.mt, es[i].v.fs, k)
+                       ELSE IF f.t = "msg" /\ f.card = "rep"
+                       THEN UNION { Populated(f.mt, es[i].v.fs[j].v.fs, k) : j \in 1..Len(es[i].v.fs) }
+                       ELSE {})
+          : i \in 1..Len(es) }
+
+(* json_name and default are handled as a group, outside the options message; what a best-effort
+   interpretation does with the rest of the group after one of them failed (or when one is given twice) is
+   not specified anywhere: at most one pseudo-option statement per element is generated                  *)
+IsPseudo(s) == ~s.path[1].ext /\ s.path[1].n \in {"json_name", "default"}
 Step(s, idx) ==
   LET r == InterpretOption(acc, s, kind, sch)
       u == IF Local(s) THEN InterpretOption(uacc, s, kind, sch) ELSE Rej("not-local")
   IN /\ ~r.unc /\ ~u.unc                         \* the filter: uncertain rules never leave the spec
+     /\ ~(IsPseudo(s) /\ \E i \in 1..Len(stmts) : IsPseudo(stmts[i]))
      /\ stmts' = Append(stmts, s)
      /\ acc'  = IF r.ok THEN r.v.fs ELSE acc
      /\ bad'  = IF r.ok THEN bad ELSE Append(bad, Len(stmts) + 1)
      /\ uacc' = IF u.ok THEN u.v.fs ELSE uacc
      /\ ubad' = IF u.ok THEN ubad ELSE Append(ubad, Len(stmts) + 1)
-     /\ info' = [pre |-> r.pre, rules |-> info.rules \cup (IF r.ok THEN {} ELSE {r.rule}), last |-> idx]
+     /\ info' = [pre |-> r.pre, rules |-> info.rules \cup (IF r.ok THEN {} ELSE {r.rule}), last |-> idx, dec |-> FALSE]
 
-Next ==
+AddStmt ==
   /\ Len(stmts) < MaxStmts
   /\ ~info.pre                                   \* nothing after a syntax / link error: no file to interpret
+  /\ ~info.dec
   /\ IF Mode = "strip"
      THEN \E i \in (info.last + 1)..Len(StripSeq(kind)) : Step(StripSeq(kind)[i], i)
      ELSE IF Mode = "sim"
      THEN \E s \in {RandomElement(Universe(kind))} : Step(s, 0)   \* one draw per step (tlc -simulate)
      ELSE \E s \in Universe(kind) : Step(s, 0)
   /\ UNCHANGED <<run, kind, sch, part, sib>>
+(* strip mode: retention does not influence interpretation, so the retention assignment is chosen last,
+   among those whose marked fields are all populated (a retention on an absent field adds nothing)     *)
+Decorate ==
+  /\ Mode = "strip" /\ ~info.dec /\ Len(stmts) >= 1
+  /\ \E r \in RetAssignments :
+        /\ { i \in RetIds : r[i] # "unset" } \subseteq (Populated("TOP", acc, kind) \cup (IF sib = "none" THEN {} ELSE {"x_int32"}))
+        /\ sch' = [sch EXCEPT !.ret = r]
+  /\ info' = [info EXCEPT !.dec = TRUE]
+  /\ UNCHANGED <<run, kind, part, stmts, acc, bad, uacc, ubad, sib>>
+Next == AddStmt \/ Decorate
 Spec == Init /\ [][Next]_vars
 
 (* ---- what is exported ---- *)
@@ -185,20 +217,7 @@ Case == [mode |-> Mode, kind |-> kind, tf |-> sch.tf, tk |-> sch.tk, ret |-> Ret
                sibstrip |-> IF sib = "none" THEN StripTop(<<>>, kind, sch) ELSE StripTop(SibEs, kind, sch)]
          ELSE <<>>)
 
-(* in strip mode a retention on a field nobody populates adds nothing: export only assignments
-   whose marked fields are all populated                                                        *)
-RECURSIVE Populated(_, _, _)
-Populated(mt, es, k) ==
-  UNION { LET f == FieldByEntry(mt, k, es[i].n) IN
-          {f.id} \cup (IF f.t \in {"msg", "grp"} /\ f.card = "one" THEN Populated(f.mt, es[i].v.fs, k)
-                       ELSE IF f.t = "msg" /\ f.card = "rep"
-                       THEN UNION { Populated(f.mt, es[i].v.fs[j].v.fs, k) : j \in 1..Len(es[i].v.fs) }
-                       ELSE {})
-          : i \in 1..Len(es) }
-Relevant == Mode = "strip" => { i \in RetIds : sch.ret[i] # "unset" } \subseteq
-                                (Populated("TOP", acc, kind) \cup (IF sib = "none" THEN {} ELSE {"x_int32"}))
-
-Export == (Len(stmts) >= 1 /\ Relevant) => PrintT("CASE " \o ToJson(Case))
+Export == (Len(stmts) >= 1 /\ (Mode = "strip" => info.dec)) => PrintT("CASE " \o ToJson(Case))
 
 (* ---- spec-level sanity, checked by TLC in every state ---- *)
 (* stripping twice changes nothing; nothing with source retention survives; without a source
